@@ -188,6 +188,8 @@ func synthCorpus(r *rng, ndocs int) []corpusDoc {
 		case r.chance(1, 6):
 			unit := mk(2 + r.intn(4))
 			text = strings.Repeat(unit+" ", 3+r.intn(20)) // repetitive
+		case r.chance(1, 6):
+			text = mk(1 + r.intn(10)) // at most a few q-grams long
 		default:
 			text = mk(1 + r.intn(120))
 		}
@@ -251,6 +253,84 @@ func oovBlock(r *rng, nwords, nlines int) string {
 		}
 	}
 	return sb.String()
+}
+
+// boundarySub: substitutes words of the text so that the number of words not covered by any matching q-gram
+// (q = 4) sits at the density boundary of detectRuns while the word-level distance stays small: a pair of
+// substitutions 4 words apart uncovers 5 words for 2 edits, a single one uncovers 1.  The nominal number of
+// uncovered words is U = ntok - int(ntok*thr) (ntok = token count of the text, 0: number of fields); with a
+// classifier the largest u in U-3..U+3 for which the text alone is still reported as `name` is taken (the
+// critical text), else U+delta.
+func boundarySub(r *rng, text []byte, thr float64, ntok int, delta int, c *classifier.Classifier, name string) []byte {
+	ws := strings.Fields(string(text))
+	if ntok == 0 {
+		ntok = len(ws)
+	}
+	u0 := ntok - int(float64(ntok)*thr)
+	var slots []int
+	for i := 5 + r.intn(5); i+9 < len(ws); i += 10 {
+		slots = append(slots, i)
+	}
+	for i := len(slots) - 1; i > 0; i-- {
+		j := r.intn(i + 1)
+		slots[i], slots[j] = slots[j], slots[i]
+	}
+	mk := func(u int) []byte {
+		out := append([]string(nil), ws...)
+		p, sg := u/5, u%5
+		for j, i := range slots {
+			switch {
+			case j < p:
+				out[i] = oovWords[(i+j)%len(oovWords)]
+				out[i+4] = oovWords[(i+j+3)%len(oovWords)]
+			case j < p+sg:
+				out[i] = oovWords[(i+j)%len(oovWords)]
+			}
+		}
+		return []byte(strings.Join(out, " "))
+	}
+	if c == nil {
+		if u0+delta < 0 {
+			return mk(0)
+		}
+		return mk(u0 + delta)
+	}
+	best := -1
+	for u := u0 - 3; u <= u0+3; u++ {
+		if u < 0 {
+			continue
+		}
+		for _, m := range c.Match(mk(u)).Matches {
+			if m.Name == name {
+				best = u
+			}
+		}
+	}
+	if best < 0 {
+		best = u0 - 3
+		if best < 0 {
+			best = 0
+		}
+	}
+	return mk(best)
+}
+
+func isOov(w string) bool {
+	for _, o := range oovWords {
+		if o == w {
+			return true
+		}
+	}
+	return false
+}
+
+func farFromOov(ws []string, i, d int) bool {
+	for j := i - d + 1; j < i+d; j++ {
+		if j >= 0 && j < len(ws) && j != i && isOov(ws[j]) {
+			return false
+		}
+	}
+	return true
 }
 
 // evenlySub: substitute every k-th word (confidence near 1 - 1/k), the last word included or not
